@@ -13,7 +13,7 @@ import re
 
 from . import vlib
 
-STOP = {"EvalBegin", "Interp", "Factorise", "SoftBegin", "SoftEnd", "ReduceRho", "Final", "RunEnd", "RunBegin", "Return", "Raise", "Hang", "ShiftBase", "Swap"}
+STOP = {"EvalBegin", "Interp", "SoftBegin", "SoftEnd", "ReduceRho", "Final", "RunEnd", "RunBegin", "Return", "Raise", "Hang", "ShiftBase", "Swap"}
 MODEL = {"ModelInit", "ChangePoint", "AddSample", "AddPoint", "SavePoint", "Interp"}
 EMPTY_M = dict(npt=0, numpts=0, kopt=0, en=[], ns=[], obj=[], hassave=False, objsave=0, ensave=-1, nssave=-1, jacen=[])
 MKEYS = ("npt", "numpts", "kopt", "en", "ns", "obj", "hassave", "objsave", "ensave", "nssave", "jacen")
@@ -36,7 +36,7 @@ def modelled(inst, t):
     if t["cfg"].get("parallel"):
         return "parallel initialisation"
     for k in up:
-        if k == "growing.do_geom_steps" and not up[k]:
+        if k == "growing.do_geom_steps":
             continue
         # (restarts.auto_detect.* only move the moment at which the auto-detected restart fires - an environment choice in Dfols.tla; momentum steps
         #  evaluate into the furthest slots exactly like the geometry variant of the regression steps)
@@ -161,7 +161,7 @@ def constants(inst, t, snaps):
     c = dict(MaxFun=int(inst.get("maxfun", 60)), NPT=int(rb[0]["npt"]), VMax=top, Small=small, MaxSamples=maxs, WithInf=True,
              UseRestarts=bool(restarts) or bool(inst.get("noise")), SoftRestarts=(restarts in (None, "soft")), MaxUnsucc=int(inst.get("maxunsucc", up.get("restarts.max_unsuccessful_restarts", 10))),
              NumGeom=3, MoveXk=True, UseOldRk=(restarts != "hardnew"), IncNpt=int(inst.get("incnpt") or 0), RhoLevels=int(snaps[0].get("K", 0)) if False else _rho_levels(ev),
-             RhoendScaleDrop=1 if float(inst.get("rhoend_scale", 1.0)) < 1.0 else 0, MaxRuns=nrest + 3, NdirsInit=int(inst.get("growing") or up.get("growing.ndirs_initial", 0) or 0), RhoDropAny=True, NoisyObjective=not bool(t["cfg"]["det"]), WithHuge=True, NewDirs=int(up.get("growing.num_new_dirns_each_iter", 0) or 0),
+             RhoendScaleDrop=1 if float(inst.get("rhoend_scale", 1.0)) < 1.0 else 0, MaxRuns=nrest + 3, NdirsInit=int(inst.get("growing") or up.get("growing.ndirs_initial", 0) or 0), RhoDropAny=True, NoisyObjective=not bool(t["cfg"]["det"]), WithHuge=True, NewDirs=int(up.get("growing.num_new_dirns_each_iter", 0) or 0), GrowGeom=bool(up.get("growing.do_geom_steps", False)), RegInc=int(up.get("regression.increase_num_extra_steps_with_restart", 0) or 0),
              WithNoise=bool(up.get("noise.quit_on_noise_level") or inst.get("noise")), RegSteps=int(up.get("regression.num_extra_steps", 0) or 0), WithAuto=True, WithFalseSuccess=True)
     return c
 
